@@ -143,6 +143,32 @@ def run(res, tier):
                     bad.append(dict(what='LmiEdmd with this inv_method does not return the Edmd optimum under pure Tikhonov '
                                          'regularisation', inv_method=inv, alpha=alpha, cost=c_u, cost_edmd=c_e,
                                     coef_difference=d, X=X.tolist()))
+    # history: a fit must not be served a factorisation memoised for OTHER parameters (truncated SVD first, then the
+    # untruncated one on the same data and alpha); reference = the same fit with an emptied cache, and Edmd
+    n_hist = 2 if tier == 'quick' else 12
+    for h in range(n_hist):
+        Xh, _, _ = lmi.linear_data(rng, 2, 1, kind='stable', n_eps=2, length=12, noise=0.05)
+        Xh = np.hstack((Xh, rng.normal(size=(Xh.shape[0], 1))))        # 2 states + 2 inputs
+        alpha = float(rng.choice([0.1, 0.5]))
+        kw = dict(alpha=alpha, inv_method='svd', solver_params=lmi.SOLVER)
+        if h % 2 == 1:
+            kw.update(reg_method='nuclear', ratio=0.6, square_norm=True)
+        try:
+            L.LmiEdmd(tsvd=pykoop.Tsvd('rank', 3), **kw).fit(Xh, n_inputs=2, episode_feature=True)
+            second = L.LmiEdmd(**kw).fit(Xh, n_inputs=2, episode_feature=True)
+            L.memory.clear(warn=False)
+            fresh = L.LmiEdmd(**kw).fit(Xh, n_inputs=2, episode_feature=True)
+        except Exception:  # noqa
+            dist['fit_error'] = dist.get('fit_error', 0) + 1
+            continue
+        dist['history/truncated_then_untruncated'] = dist.get('history/truncated_then_untruncated', 0) + 1
+        d = float(np.max(np.abs(second.coef_ - fresh.coef_)))
+        st2, st3 = getattr(second, 'solution_status_', 'optimal'), getattr(fresh, 'solution_status_', 'optimal')
+        if st2 != st3 or d > 2e-3 * max(1.0, float(np.max(np.abs(fresh.coef_)))):
+            bad.append(dict(what='an LmiEdmd(inv_method=svd) fit that follows a fit with another truncation on the same data differs '
+                                 'from the same fit with an empty memo cache (stale memoised factorisation): the cost minimised is '
+                                 'not the documented one', coef_difference=d, status_after_history=st2, status_fresh=st3,
+                            estimator=repr(second), X=Xh.tolist()))
     ev = sum(v for k, v in dist.items() if k not in ('fit_error', 'ill_conditioned_skipped', 'not_optimal_status',
                                                      'sweep_pivoting', 'sweep_no_pivot'))
     res.coverage.update(
